@@ -169,7 +169,7 @@ class Engine:
                 raise Unsupported('read of escaped cell')
             return h
         arr = self.get_field_array(st, loc.fname, v.ty)
-        return z3.Select(arr, loc.ref)
+        return T.Sel(arr, loc.ref)
 
     def store(self, v, term, st):
         if v.loc is None:
@@ -238,7 +238,7 @@ class Engine:
             if a.kind in ('Int', 'Bool') and b.kind in ('Real', 'Int'):
                 term = self.load(v, st)
                 i = z3.Int(fresh_name('ci'))
-                el = self.coerce(V(a, z3.Select(T.seq_arr(v.ty, term), i)), b, st).t
+                el = self.coerce(V(a, T.Sel(T.seq_arr(v.ty, term), i)), b, st).t
                 return V(ty, T.seq_mk(ty, T.seq_len(v.ty, term), z3.Lambda([i], el)))
         if ty.kind == 'Tuple' and v.ty.kind == 'Tuple' and len(ty.args) == len(v.ty.args):
             parts = [self.as_term(self.coerce(self.tuple_get(v, i, st), a, st), st) for i, a in enumerate(ty.args)]
@@ -342,7 +342,16 @@ class Engine:
             return self.new_cell(st, t, term)
         return V(t, term)
 
-    def norm_index(self, idx, ln):
+    def norm_index(self, idx, ln, st=None):
+        """Python's negative indexing. Spec expressions index mathematically; in code the wrap-around term is only
+        generated when the index is not known to be non-negative (keeps quantifier patterns matchable)."""
+        if self.in_spec:
+            return idx
+        si = z3.simplify(idx)
+        if z3.is_int_value(si):
+            return si if si.as_long() >= 0 else z3.simplify(si + ln)
+        if st is not None and self.valid(st, idx >= 0, 300):
+            return idx
         return z3.If(idx < 0, idx + ln, idx)
 
     def tuple_get(self, v, i, st):
@@ -450,7 +459,7 @@ class Engine:
         if isinstance(node.op, ast.Invert) and v.ty.kind == 'Np1' and v.ty.args[0].kind == 'Bool':
             ln, arr = self.seq_parts(v, st)
             i = z3.Int(fresh_name('i'))
-            return self.mk_list(st, BOOL, ln, z3.Lambda([i], z3.Not(z3.Select(arr, i))), kind='Np1')
+            return self.mk_list(st, BOOL, ln, z3.Lambda([i], z3.Not(T.Sel(arr, i))), kind='Np1')
         raise Unsupported(f'unary {type(node.op).__name__} on {v.ty!r}')
 
     def e_BoolOp(self, node, st):
@@ -550,11 +559,11 @@ class Engine:
             ta, tb = self.load(a, st), self.load(b, st)
             x = z3.Const(fresh_name('e'), sort_of(a.ty.args[0]))
             if isinstance(op, ast.BitOr):
-                r = z3.Lambda([x], z3.Or(z3.Select(ta, x), z3.Select(tb, x)))
+                r = z3.Lambda([x], z3.Or(T.Sel(ta, x), T.Sel(tb, x)))
             elif isinstance(op, ast.BitAnd):
-                r = z3.Lambda([x], z3.And(z3.Select(ta, x), z3.Select(tb, x)))
+                r = z3.Lambda([x], z3.And(T.Sel(ta, x), T.Sel(tb, x)))
             elif isinstance(op, ast.Sub):
-                r = z3.Lambda([x], z3.And(z3.Select(ta, x), z3.Not(z3.Select(tb, x))))
+                r = z3.Lambda([x], z3.And(T.Sel(ta, x), z3.Not(T.Sel(tb, x))))
             else:
                 raise Unsupported('set op')
             return self.new_cell(st, a.ty, r)
@@ -581,14 +590,14 @@ class Engine:
         la, aa = self.seq_parts(a, st)
         lb, ab = self.seq_parts(b, st)
         i = z3.Int(fresh_name('i'))
-        arr = z3.Lambda([i], z3.If(i < la, z3.Select(aa, i), z3.Select(ab, i - la)))
+        arr = z3.Lambda([i], z3.If(i < la, T.Sel(aa, i), T.Sel(ab, i - la)))
         return self.mk_list(st, et, la + lb, arr)
 
     def np_binop(self, op, a, b, st):
         def parts(v):
             if v.ty.kind == 'Np1':
                 ln, arr = self.seq_parts(v, st)
-                return ln, (lambda i: V(v.ty.args[0], z3.Select(arr, i)))
+                return ln, (lambda i: V(v.ty.args[0], T.Sel(arr, i)))
             return None, (lambda i: v)
         la, fa = parts(a)
         lb, fb = parts(b)
@@ -604,8 +613,47 @@ class Engine:
             r = V(BOOL, z3.And(x.t, y.t) if isinstance(op, ast.BitAnd) else z3.Or(x.t, y.t))
         return self.mk_list(st, r.ty, ln, z3.Lambda([i], r.t), kind='Np1')
 
+    def np_compare(self, op, a, b, st):
+        if a.ty.kind == 'Np2' or b.ty.kind == 'Np2':
+            def parts2(v):
+                if v.ty.kind == 'Np2':
+                    t = self.load(v, st)
+                    return (T.mat_n0(v.ty, t), T.mat_n1(v.ty, t)), \
+                        (lambda i, j: V(v.ty.args[0], T.Sel(T.Sel(T.mat_arr(v.ty, t), i), j)))
+                if v.ty.kind == 'Np1':
+                    raise Unsupported('broadcast 1-D with 2-D')
+                return None, (lambda i, j: v)
+            sa, fa = parts2(a)
+            sb, fb = parts2(b)
+            if sa is not None and sb is not None:
+                self.total(st, z3.And(sa[0] == sb[0], sa[1] == sb[1]), 'numpy operands have equal shape')
+            shp = sa or sb
+            i, j = z3.Int(fresh_name('i')), z3.Int(fresh_name('j'))
+            c = self.compare(op, fa(i, j), fb(i, j), st)
+            t = Ty('Np2', (BOOL,))
+            return self.new_cell(st, t, T.mat_mk(t, shp[0], shp[1], z3.Lambda([i], z3.Lambda([j], c))))
+
+        def parts(v):
+            if v.ty.kind in ('Np1', 'List'):
+                ln, arr = self.seq_parts(v, st)
+                return ln, (lambda i: self.unbox(v.ty.args[0], T.Sel(arr, i), st))
+            return None, (lambda i: v)
+        la, fa = parts(a)
+        lb, fb = parts(b)
+        if la is not None and lb is not None:
+            self.total(st, la == lb, 'numpy operands have equal length')
+        ln = la if la is not None else lb
+        i = z3.Int(fresh_name('i'))
+        c = self.compare(op, fa(i), fb(i), st)
+        return self.mk_list(st, BOOL, ln, z3.Lambda([i], c), kind='Np1')
+
     def e_Compare(self, node, st):
         left = self.eval(node.left, st)
+        if len(node.ops) == 1 and not isinstance(node.ops[0], (ast.In, ast.NotIn, ast.Is, ast.IsNot)):
+            right0 = self.eval(node.comparators[0], st)
+            if left.ty.kind in ('Np1', 'Np2') or right0.ty.kind in ('Np1', 'Np2'):
+                return self.np_compare(node.ops[0], left, right0, st)
+            return V(BOOL, self.compare(node.ops[0], left, right0, st, node))
         res = []
         pushed = 0
         try:
@@ -674,7 +722,7 @@ class Engine:
             la, aa = self.seq_parts(a2, st)
             lb, ab = self.seq_parts(b2, st)
             i = z3.Int(fresh_name('i'))
-            return z3.And(la == lb, z3.ForAll([i], z3.Implies(z3.And(0 <= i, i < la), z3.Select(aa, i) == z3.Select(ab, i))))
+            return z3.And(la == lb, z3.ForAll([i], z3.Implies(z3.And(0 <= i, i < la), T.Sel(aa, i) == T.Sel(ab, i))))
         if t.kind == 'Tuple' and (a2.t is None or b2.t is None):
             return And(*[self.equals(self.tuple_get(a2, i, st), self.tuple_get(b2, i, st), st)
                          for i in range(len(t.args))])
@@ -699,17 +747,17 @@ class Engine:
             k = cont.ty.kind
         if k == 'Set':
             xe = self.coerce(x, cont.ty.args[0], st)
-            return z3.Select(self.load(cont, st), self.as_term(xe, st))
+            return T.Sel(self.load(cont, st), self.as_term(xe, st))
         if k == 'Dict':
             xe = self.coerce(x, cont.ty.args[0], st)
-            return z3.Select(T.dict_dom(cont.ty, self.load(cont, st)), self.as_term(xe, st))
+            return T.Sel(T.dict_dom(cont.ty, self.load(cont, st)), self.as_term(xe, st))
         if k in ('List', 'Np1'):
             if cont.ty.args[0].kind == 'Bottom':
                 return z3.BoolVal(False)
             xe = self.coerce(x, cont.ty.args[0], st)
             ln, arr = self.seq_parts(cont, st)
             i = z3.Int(fresh_name('j'))
-            return z3.Exists([i], z3.And(0 <= i, i < ln, z3.Select(arr, i) == self.as_term(xe, st)))
+            return z3.Exists([i], z3.And(0 <= i, i < ln, T.Sel(arr, i) == self.as_term(xe, st)))
         if k == 'Tuple':
             return z3.Or(*[self.equals(self.tuple_get(cont, i, st), x, st) for i in range(len(cont.ty.args))]) \
                 if cont.ty.args else z3.BoolVal(False)
@@ -781,7 +829,7 @@ class Engine:
             if fty.is_container:
                 return V(fty, loc=FieldLoc(obj.t, key))
             arr = self.get_field_array(st, key, fty)
-            return V(fty, z3.Select(arr, obj.t))
+            return V(fty, T.Sel(arr, obj.t))
         if k == 'Enum' and name == 'value':
             return V(INT, obj.t)
         if k == 'Py' and obj.py and obj.py[0] == 'enumcls':
@@ -848,14 +896,14 @@ class Engine:
                 return self.np_index(obj, idx, st, what)
             idx = self.coerce(idx, INT, st, 'index')
             self.total(st, z3.And(idx.t >= -ln, idx.t < ln), f'index in range: {what}', node)
-            return self.unbox(et, z3.Select(arr, self.norm_index(idx.t, ln)), st)
+            return self.unbox(et, T.Sel(arr, self.norm_index(idx.t, ln, st)), st)
         if k == 'Dict':
             kt, vt = obj.ty.args
             key = self.coerce(self.eval(sl, st), kt, st)
             term = self.load(obj, st)
             kterm = self.as_term(key, st)
-            self.total(st, z3.Select(T.dict_dom(obj.ty, term), kterm), f'key present: {what}', node)
-            return self.unbox(vt, z3.Select(T.dict_val(obj.ty, term), kterm), st)
+            self.total(st, T.Sel(T.dict_dom(obj.ty, term), kterm), f'key present: {what}', node)
+            return self.unbox(vt, T.Sel(T.dict_val(obj.ty, term), kterm), st)
         if k == 'Np2':
             term = self.load(obj, st)
             n0, n1, arr = T.mat_n0(obj.ty, term), T.mat_n1(obj.ty, term), T.mat_arr(obj.ty, term)
@@ -865,22 +913,21 @@ class Engine:
                 if isinstance(a, ast.Slice) and not isinstance(b, ast.Slice) and self.is_full_slice(a):
                     j = self.coerce(self.eval(b, st), INT, st)
                     self.total(st, z3.And(j.t >= -n1, j.t < n1), f'index in range: {what}', node)
-                    jj = self.norm_index(j.t, n1)
-                    i = z3.Int(fresh_name('i'))
-                    return self.mk_list(st, et, n0, z3.Lambda([i], z3.Select(z3.Select(arr, i), jj)), kind='Np1')
+                    jj = self.norm_index(j.t, n1, st)
+                    return self.mk_list(st, et, n0, T.mat_col(et, arr, jj), kind='Np1')
                 if isinstance(b, ast.Slice) and not isinstance(a, ast.Slice) and self.is_full_slice(b):
                     i = self.coerce(self.eval(a, st), INT, st)
                     self.total(st, z3.And(i.t >= -n0, i.t < n0), f'index in range: {what}', node)
-                    return self.mk_list(st, et, n1, z3.Select(arr, self.norm_index(i.t, n0)), kind='Np1')
+                    return self.mk_list(st, et, n1, T.Sel(arr, self.norm_index(i.t, n0, st)), kind='Np1')
                 if not isinstance(a, ast.Slice) and not isinstance(b, ast.Slice):
                     i = self.coerce(self.eval(a, st), INT, st)
                     j = self.coerce(self.eval(b, st), INT, st)
                     self.total(st, z3.And(i.t >= -n0, i.t < n0, j.t >= -n1, j.t < n1), f'index in range: {what}', node)
-                    return V(et, z3.Select(z3.Select(arr, self.norm_index(i.t, n0)), self.norm_index(j.t, n1)))
+                    return V(et, T.Sel(T.Sel(arr, self.norm_index(i.t, n0, st)), self.norm_index(j.t, n1, st)))
             elif not isinstance(sl, (ast.Slice, ast.Tuple)):
                 i = self.coerce(self.eval(sl, st), INT, st)
                 self.total(st, z3.And(i.t >= -n0, i.t < n0), f'index in range: {what}', node)
-                return self.mk_list(st, et, n1, z3.Select(arr, self.norm_index(i.t, n0)), kind='Np1')
+                return self.mk_list(st, et, n1, T.Sel(arr, self.norm_index(i.t, n0, st)), kind='Np1')
             raise Unsupported(f'2-D subscript form {what}')
         raise Unsupported(f'subscript on {obj.ty!r}')
 
@@ -911,7 +958,7 @@ class Engine:
         lo, hi = self.slice_bounds(sl, ln, st)
         n = z3.If(hi > lo, hi - lo, I0)
         i = z3.Int(fresh_name('i'))
-        return self.mk_list(st, obj.ty.args[0], n, z3.Lambda([i], z3.Select(arr, i + lo)), kind=obj.ty.kind)
+        return self.mk_list(st, obj.ty.args[0], n, z3.Lambda([i], T.Sel(arr, i + lo)), kind=obj.ty.kind)
 
     def np_index(self, obj, idx, st, what):
         ln, arr = self.seq_parts(obj, st)
@@ -920,9 +967,9 @@ class Engine:
         if idx.ty.args[0].kind == 'Int':
             i = z3.Int(fresh_name('i'))
             self.total(st, z3.ForAll([i], z3.Implies(z3.And(0 <= i, i < il),
-                                                     z3.And(z3.Select(ia, i) >= -ln, z3.Select(ia, i) < ln))),
+                                                     z3.And(T.Sel(ia, i) >= -ln, T.Sel(ia, i) < ln))),
                        f'index array in range: {what}')
-            return self.mk_list(st, et, il, z3.Lambda([i], z3.Select(arr, self.norm_index(z3.Select(ia, i), ln))),
+            return self.mk_list(st, et, il, z3.Lambda([i], T.Sel(arr, self.norm_index(T.Sel(ia, i), ln, st))),
                                 kind='Np1')
         raise Unsupported('boolean mask indexing (read)')
 
@@ -939,7 +986,7 @@ class Engine:
                 if k == 'Np1' and val.ty.kind not in ('List', 'Np1'):
                     v = self.coerce(val, et, st)
                     i = z3.Int(fresh_name('i'))
-                    new = z3.Lambda([i], z3.If(z3.And(lo <= i, i < hi), v.t, z3.Select(arr, i)))
+                    new = z3.Lambda([i], z3.If(z3.And(lo <= i, i < hi), v.t, T.Sel(arr, i)))
                     self.store(obj, T.seq_mk(obj.ty, ln, new), st)
                     return
                 val = self.coerce(val, Ty(val.ty.kind, (et,)), st)
@@ -948,8 +995,8 @@ class Engine:
                     self.total(st, vl == z3.If(hi > lo, hi - lo, I0), f'slice assignment shapes match: {what}')
                 hi2 = z3.If(hi < lo, lo, hi)
                 i = z3.Int(fresh_name('i'))
-                new = z3.Lambda([i], z3.If(i < lo, z3.Select(arr, i),
-                                           z3.If(i < lo + vl, z3.Select(va, i - lo), z3.Select(arr, i - vl + hi2 - lo))))
+                new = z3.Lambda([i], z3.If(i < lo, T.Sel(arr, i),
+                                           z3.If(i < lo + vl, T.Sel(va, i - lo), T.Sel(arr, i - vl + hi2 - lo))))
                 self.store(obj, T.seq_mk(obj.ty, ln - (hi2 - lo) + vl, new), st)
                 return
             idx = self.eval(sl, st)
@@ -960,7 +1007,7 @@ class Engine:
             if et.kind == 'Bottom':
                 raise Unsupported('store into untyped empty list')
             v = self.coerce(val, et, st)
-            self.store(obj, T.seq_mk(obj.ty, ln, z3.Store(arr, self.norm_index(idx.t, ln), self.as_term(v, st))), st)
+            self.store(obj, T.seq_mk(obj.ty, ln, z3.Store(arr, self.norm_index(idx.t, ln, st), self.as_term(v, st))), st)
             self.mark_escaped(val, st)
             return
         if k == 'Dict':
@@ -980,9 +1027,9 @@ class Engine:
             i = self.coerce(self.eval(sl.elts[0], st), INT, st)
             j = self.coerce(self.eval(sl.elts[1], st), INT, st)
             self.total(st, z3.And(i.t >= -n0, i.t < n0, j.t >= -n1, j.t < n1), f'index in range: {what}', target)
-            ii, jj = self.norm_index(i.t, n0), self.norm_index(j.t, n1)
+            ii, jj = self.norm_index(i.t, n0, st), self.norm_index(j.t, n1, st)
             v = self.coerce(val, obj.ty.args[0], st)
-            new = z3.Store(arr, ii, z3.Store(z3.Select(arr, ii), jj, v.t))
+            new = z3.Store(arr, ii, z3.Store(T.Sel(arr, ii), jj, v.t))
             self.store(obj, T.mat_mk(obj.ty, n0, n1, new), st)
             return
         raise Unsupported(f'subscript store on {obj.ty!r}: {what}')
@@ -995,7 +1042,7 @@ class Engine:
             self.total(st, il == ln, f'mask length matches: {what}')
             v = self.coerce(val, et, st)
             i = z3.Int(fresh_name('i'))
-            new = z3.Lambda([i], z3.If(z3.And(0 <= i, i < ln, z3.Select(ia, i)), v.t, z3.Select(arr, i)))
+            new = z3.Lambda([i], z3.If(z3.And(0 <= i, i < ln, T.Sel(ia, i)), v.t, T.Sel(arr, i)))
             self.store(obj, T.seq_mk(obj.ty, ln, new), st)
             return
         raise Unsupported(f'numpy fancy assignment {what}')
